@@ -366,6 +366,9 @@ def build_app(spec, scripts, log, listeners=(), raiser=None, config_hook=None, h
 
     for c in spec["commands"]:
         add(config, c)
+    if spec.get("help_alias"):
+        # the application gives the built-in help command a second name
+        config.get_command_config("help").add_alias(spec["help_alias"])
     for event_name, fn, prio in listeners:
         config.add_event_listener(event_name, fn, prio)
     if config_hook is not None:
